@@ -23,7 +23,8 @@ type world struct {
 	gn   string
 	s    shuffle.Suite
 	q    *big.Int
-	h    *big.Int // H = h*G
+	h    *big.Int // H = h*B
+	g    *big.Int // G = g*B (1: the standard base point)
 	G, H kyber.Point
 }
 
@@ -42,8 +43,17 @@ func newWorld(gn string) *world {
 		w.s = fixedRand{edwards25519.NewBlakeSHA256Ed25519()}
 	}
 	w.h = alpha.Rand("c15-h", w.q)
+	w.g = big.NewInt(1)
 	w.G = w.s.Point().Base()
 	w.H = w.pt(w.h)
+	return w
+}
+
+// newWorldG: the same with a generator G that is not the standard base point.
+func newWorldG(gn string) *world {
+	w := newWorld(gn)
+	w.g = alpha.Rand("c15-g", w.q)
+	w.G = w.pt(w.g)
 	return w
 }
 
@@ -80,7 +90,7 @@ func (w *world) points(v []*big.Int) []kyber.Point {
 	return out
 }
 
-// isShuffle: exists a permutation pi with (bbar_i - b_pi(i)) = h (abar_i - a_pi(i)) for all i.
+// isShuffle: exists a permutation pi with g (bbar_i - b_pi(i)) = h (abar_i - a_pi(i)) for all i.
 func (w *world) isShuffle(in, out pairs) bool {
 	k := len(in.a)
 	if len(out.a) != k || len(out.b) != k {
@@ -98,7 +108,7 @@ func (w *world) isShuffle(in, out pairs) bool {
 			}
 			da := new(big.Int).Sub(out.a[i], in.a[j])
 			db := new(big.Int).Sub(out.b[i], in.b[j])
-			if new(big.Int).Mod(new(big.Int).Sub(db, new(big.Int).Mul(w.h, da)), w.q).Sign() == 0 {
+			if new(big.Int).Mod(new(big.Int).Sub(new(big.Int).Mul(db, w.g), new(big.Int).Mul(w.h, da)), w.q).Sign() == 0 {
 				used[j] = true
 				if rec(i + 1) {
 					return true
@@ -135,7 +145,7 @@ func perms(k int) [][]int {
 func (w *world) honestOutput(in pairs, pi []int, beta []*big.Int) pairs {
 	var o pairs
 	for i := range pi {
-		o.a = append(o.a, new(big.Int).Mod(new(big.Int).Add(in.a[pi[i]], beta[pi[i]]), w.q))
+		o.a = append(o.a, new(big.Int).Mod(new(big.Int).Add(in.a[pi[i]], new(big.Int).Mul(beta[pi[i]], w.g)), w.q))
 		o.b = append(o.b, new(big.Int).Mod(new(big.Int).Add(in.b[pi[i]], new(big.Int).Mul(beta[pi[i]], w.h)), w.q))
 	}
 	return o
@@ -165,7 +175,10 @@ func Run(c *vf.Check) {
 					continue
 				}
 				gn, k, p := gn, k, ps[pi]
-				jobs = append(jobs, func() { runPair(c, gn, k, p) })
+				jobs = append(jobs, func() { runPair(c, gn, k, p, false) })
+				if k <= 3 {
+					jobs = append(jobs, func() { runPair(c, gn, k, p, true) })
+				}
 			}
 			gn, k := gn, k
 			jobs = append(jobs, func() { runSimple(c, gn, k) }, func() { runForge(c, gn, k) })
@@ -179,10 +192,10 @@ func Run(c *vf.Check) {
 		jobs = append(jobs, func() { runBiffleForge(c, gn) })
 	}
 	if c.Thorough() {
-		jobs = append(jobs, func() { runPair(c, "ed25519", 8, []int{7, 6, 5, 4, 3, 2, 1, 0}) }, func() { runPair(c, "ed25519", 12, []int{1, 2, 3, 4, 5, 6, 7, 8, 9, 10, 11, 0}) })
+		jobs = append(jobs, func() { runPair(c, "ed25519", 8, []int{7, 6, 5, 4, 3, 2, 1, 0}, false) }, func() { runPair(c, "ed25519", 12, []int{1, 2, 3, 4, 5, 6, 7, 8, 9, 10, 11, 0}, true) })
 	}
 	vf.Parallel(len(jobs), func(i int) { jobs[i]() })
-	c.Finish("engine E: pair shuffle on Ed25519 and P-256, k=2..4 (thorough 5, and 8/12 with fixed permutations): EVERY permutation x 3 input variants (random, small, duplicate ciphertexts): the honest proof verifies; with the honest proof, every output slot replaced / duplicated / scaled / summed with its neighbour / outputs swapped / output extended or shortened, proof of another instance, proof bytes flipped and truncated, G or H replaced: accepted only if the model (brute force over permutations with known discrete logs) says the claimed output is a re-encryption permutation and nothing else changed. "+
+	c.Finish("engine E: pair shuffle on Ed25519 and P-256, k=2..4 (thorough 5, and 8/12 with fixed permutations): EVERY permutation x 3 input variants (random, small, duplicate ciphertexts), with the standard base point as generator and (k<=3) with another generator g*B: the honest proof verifies; with the honest proof, every output slot replaced / duplicated / scaled / summed with its neighbour / outputs swapped / output extended or shortened, proof of another instance, proof bytes flipped and truncated, G or H replaced: accepted only if the model (brute force over permutations with known discrete logs) says the claimed output is a re-encryption permutation and nothing else changed. "+
 		"Forged-transcript family F1: a prover that builds a FRESH proof for X'=M*X+beta*G, Y'=M*Y+beta*H with M in {I+E01, I+E10, diag(2,1,..)} (solving M^T sigma = rho + l after the first challenge, D_i = sigma_i*Gamma - W_i, any valid simple-shuffle tail): must be rejected. Simple shuffle: honest vectors verify; y not a gamma-permutation of x (replaced, duplicated, unscaled entry) -> rejected. Biffle: both bits, slot replacement / duplication, proof alterations, and a forging prover: for each of the 8 relations an output violating exactly that relation with a fresh transcript built from a same-shape predicate in which the relation is replaced by a copy of another one (24 forgeries per branch) - all must be rejected. Sequence shuffle NQ=1..3: permutations reached through seeded streams (all k! for k<=3), honest verifies, one sequence's output altered -> rejected. "+
 		"non-trivial = non-identity permutations and forged instances; distinct by (group, k, permutation, variant, attack)",
 		[]string{"soundness is only probed by the enumerated output alterations and the F1 forging strategy; absence of a finding is not a soundness proof", "the forger mirrors the transcript layout of the package (if the layout changes the forged proof merely fails to parse)"}, nil)
@@ -210,12 +223,20 @@ func cp(p pairs) pairs {
 	return o
 }
 
-func runPair(c *vf.Check, gn string, k int, pi []int) {
+func runPair(c *vf.Check, gn string, k int, pi []int, otherG bool) {
 	pk := "C15/pair/" + gn
 	w := newWorld(gn)
+	gl := ""
+	if otherG {
+		w = newWorldG(gn)
+		gl = " generator g*B"
+	}
 	for variant := 0; variant < 3; variant++ {
 		variant := variant
-		id := fmt.Sprintf("pair %s k=%d pi=%v input#%d", gn, k, pi, variant)
+		if otherG && variant == 2 {
+			continue
+		}
+		id := fmt.Sprintf("pair %s k=%d pi=%v input#%d%s", gn, k, pi, variant, gl)
 		c.Case(id, pk, func(x *vf.Ctx) {
 			in := w.input(k, variant)
 			var beta []*big.Int
@@ -515,6 +536,36 @@ func runSequences(c *vf.Check, gn string, k, nq int) {
 				}
 			}
 			seen[key] = true
+			// a mixer that drops the last column: it shuffles and honestly proves the first k-1 columns only and presents
+			// that as the output for the full input (also with one column added)
+			if k >= 3 {
+				var Xt, Yt [][]kyber.Point
+				for j := 0; j < nq; j++ {
+					Xt, Yt = append(Xt, X[j][:k-1]), append(Yt, Y[j][:k-1])
+				}
+				func() {
+					defer func() { _ = recover() }()
+					Xs, Ys, gp := shuffle.SequencesShuffle(w.s, w.G, w.H, Xt, Yt, alpha.Stream(fmt.Sprintf("c15-seq-drop-%d-%d-%d", k, nq, seed)))
+					pr, err := gp(e)
+					if err != nil {
+						return
+					}
+					p2, err := proof.HashProve(w.s, "c15q", pr)
+					if err != nil {
+						return
+					}
+					c.Eval(1)
+					accepted := false
+					func() {
+						defer func() { _ = recover() }()
+						xu, yu, xd, yd := shuffle.GetSequenceVerifiable(w.s, X, Y, Xs, Ys, e)
+						accepted = proof.HashVerify(w.s, "c15q", shuffle.Verifier(w.s, w.G, w.H, xu, yu, xd, yd), p2) == nil
+					}()
+					if accepted {
+						x.Failf(pk+"/dropped-column-accepted", "%s: an output with %d of the %d ciphertexts per sequence, honestly shuffled and proven for those, is accepted for the full input", id, k-1, k)
+					}
+				}()
+			}
 			B := w.s.Point().Base()
 			for j := 0; j < nq; j++ {
 				for i := 0; i < k; i++ {
